@@ -329,6 +329,12 @@ func (c *Cache) mqUnsubscribe(v interface{}) {
 	c.mu.Lock()
 	defer c.mu.Unlock()
 
+	// The entry may already have been evicted, if it was used and released
+	// again between its timer firing and this callback.
+	if c.eventSubs[eventSub.ResourceName] != eventSub {
+		return
+	}
+
 	if !eventSub.mqUnsubscribe() {
 		return
 	}
